@@ -21,7 +21,10 @@
    returns, call after call: a full block of totalFrameSize+aeadSizeOverhead bytes
    ([EvBlock c]) or an error ([EvErr]: EOF, short read, timeout).  Whatever an adversary does
    to the byte stream (edit, drop, duplicate, reorder, cut inside a frame, splice) reaches Read
-   as such a sequence; the harness does the chopping. *)
+   as such a sequence; the harness does the chopping.  The writer's net.Conn is modelled by the
+   result of every conn.Write(sealedFrame), call after call: [TOk] or [TErr m] (an error after
+   m bytes); [write_loop_t] is Write over such a transport, [write_loop] the case without
+   failures. *)
 From Coq Require Import List ZArith NArith Bool.
 From TM Require Import Common.Hex Generated.Consts.
 Import ListNotations.
